@@ -134,13 +134,15 @@ def build_op_args(name, cfg, w, seed):
         pi = None
         if cfg.get("padding_idx") == "given":
             pi = max(-V, min(ival(w, "padding_idx", 0), V - 1))
+        if pi is not None and w.get("_half_padding"):
+            idx.reshape(-1)[::2] = pi % V  # data extreme: every other token is the padding token
         a = dict(input=idx, weight=T([V, D], seed + 1), padding_idx=pi, max_norm=rval(w, "max_norm", 1.0) if cfg.get("max_norm") == "given" else None, norm_type=rval(w, "norm_type", 2.0))
     elif name == "scaled_dot_product_attention":
         b = run_dims(w, "batch_heads", 2, 2)
         sq, s, d = ival(w, "seq_q", 4), ival(w, "seq_len", 4), ival(w, "d_head", 3)
         if cfg.get("is_causal"):
             s = max(2, s)
-            sq = s
+            sq = max(1, sq)  # PyTorch's is_causal mask is top-left aligned: query and key lengths may differ
         a = dict(query=T(b + [sq, d], seed), key=T(b + [s, d], seed + 1), value=T(b + [s, d], seed + 2), attn_mask=None, dropout_p=0.0, is_causal=bool(cfg.get("is_causal")), mult=rval(w, "mult", 1.5))
     elif name == "cross_entropy":
         V = max(2, ival(w, "vocab_size", 5))
@@ -379,7 +381,18 @@ def replay_op(rj):
         n = clause[2 : clause.index("]")]
         b1, s1 = m1["b"].get(n, (None, 0))
         b2, s2 = m2["b"].get(n, (None, 0))
-        return (b1 is None or b2 is None or s1 > tol or abs(b1 - b2) > tol * max(1, abs(b1))), info
+        if b1 is None or b2 is None or s1 > tol or abs(b1 - b2) > tol * max(1, abs(b1)):
+            return True, info
+        # more draws of the data, including a data extreme for integer inputs
+        for extra in ({"_half_padding": "1"}, {}, {}):
+            try:
+                m3 = measure_op(name, cfg, dict(w, **extra), seed + 77 * (len(extra) + 3))
+            except Exception as e:
+                return False, f"could not run a further draw: {type(e).__name__}: {e}; " + info
+            b3, s3 = m3["b"].get(n, (None, 0))
+            if b3 is not None and abs(b1 - b3) > tol * max(1, abs(b1)):
+                return True, f"b[{n}] = {b1} for one draw of the data and {b3} for another (same shapes and hyperparameters); " + info
+        return False, info
     if "_scale_is_rsqrt_of_terms" in clause:
         which = "out" if clause.startswith("output") else clause[5 : clause.index("]")]
         s = m1["k"] if which == "out" else m1["b"][which][0]
